@@ -27,6 +27,8 @@ impl Defm {
     }
 
     pub fn add_parent(&mut self, parent_id: MulticlassId) {
+        #[cfg(tablegen_lsp_verif)]
+        super::verif_oplog::push(format!("defm.add_parent\t{}", parent_id.index()));
         self.parent_list.push(parent_id);
     }
 }
